@@ -52,6 +52,10 @@ type Frame struct {
 	iterPos map[*SymIter]int
 	inst    string
 	ghostIn map[string]*Val // named ghost values for contract evaluation
+
+	rootLocs     []assignLoc
+	rootLocsAll  bool
+	rootLocsDone bool
 }
 
 func (vc *VC) newFrame(fn *ssa.Function, parent *Frame) *Frame {
@@ -86,7 +90,7 @@ func (fr *Frame) set(v ssa.Value, val *Val) {
 			for i, t := range val.L {
 				nl[i] = fr.vc.define(fr.prefix+"_"+v.Name()+fr.inst, leaves[i].Sort, t)
 			}
-			val = &Val{T: val.T, L: nl, Fn: val.Fn, Tags: val.Tags, Map: val.Map, Iter: val.Iter}
+			val = &Val{T: val.T, L: nl, Fn: val.Fn, Tags: val.Tags, Map: val.Map, Iter: val.Iter, Alts: val.Alts}
 		}
 	}
 	fr.vals[v] = val
@@ -545,6 +549,21 @@ func iteVal(vc *VC, c string, a, b *Val) *Val {
 	}
 	r.Tags = unionInts(a.Tags, b.Tags)
 	r.Fn = unionInts(a.Fn, b.Fn)
+	if a.Alts != nil && b.Alts != nil {
+		r.Alts = map[int]string{}
+		for t, x := range a.Alts {
+			if y, ok := b.Alts[t]; ok {
+				r.Alts[t] = ite(c, x, y)
+			} else {
+				r.Alts[t] = x
+			}
+		}
+		for t, y := range b.Alts {
+			if _, ok := a.Alts[t]; !ok {
+				r.Alts[t] = y
+			}
+		}
+	}
 	if a.Map != nil || b.Map != nil {
 		if a.Map == b.Map {
 			r.Map = a.Map
@@ -946,6 +965,54 @@ func (fr *Frame) execLoopCut(l *Loop, in []*Edge) map[*ssa.BasicBlock][]*Edge {
 		}
 	}
 
+	var loopLocs []assignLoc
+	var rootInvs []Clause
+	frameWm := pre.wm
+	if lc != nil && len(lc.Assigns) > 0 {
+		save := fr.st
+		fr.st = pre
+		loopLocs, _, _ = fr.assignLocs(lc.Assigns, fr.loopScope(l, phis, entryPhi), pre)
+		fr.st = save
+	} else if root := fr.rootFrame(); root != nil && root.contract != nil && len(root.contract.Assigns) > 0 {
+		// no loop frame given: the loop may modify at most what the verified
+		// function as a whole may modify (its assigns clause, evaluated at entry)
+		if locs, all, _ := root.rootAssignLocs(); !all {
+			loopLocs = locs
+			frameWm = root.entry.wm
+			nlc := &LoopContract{}
+			if lc != nil {
+				*nlc = *lc
+			}
+			lc = nlc
+			// a list that may be appended to in place is still the entry list or
+			// was reallocated since the function was entered
+			for _, a := range root.contract.Assigns {
+				n := a.Expr
+				if n.Kind == "call" && n.Args[0].Kind == "ident" && n.Args[0].Name == "capelems" {
+					x := n.Args[1].Src
+					if x == "" {
+						x = nodeText(n.Args[1])
+					}
+					src := fmt.Sprintf("base(%s) == 0 || (base(%s) == old(base(%s)) && cap(%s) == old(cap(%s))) || base(%s) >= old($wm)", x, x, x, x, x, x)
+					if inv, err := parseSpec(src); err == nil {
+						rootInvs = append(rootInvs, Clause{Expr: inv, Src: src + " (automatic, from the function's assigns clause)"})
+					}
+				}
+			}
+		}
+	}
+	if root := fr.rootFrame(); root != nil && root.contract != nil && len(root.contract.GlobalInvs) > 0 {
+		nlc := &LoopContract{}
+		if lc != nil {
+			*nlc = *lc
+		}
+		lc = nlc
+		rootInvs = append(rootInvs, root.contract.GlobalInvs...)
+	}
+	for _, ri := range rootInvs {
+		ri.RootScope = true
+		lc.Invariants = append(lc.Invariants, ri)
+	}
 	// 1. invariant on entry
 	fr.reach, fr.st = reachIn, pre
 	if lc != nil {
@@ -954,7 +1021,8 @@ func (fr *Frame) execLoopCut(l *Loop, in []*Edge) map[*ssa.BasicBlock][]*Edge {
 			if !clauseActive(inv.Tags, vc.w.prop) {
 				continue
 			}
-			t := fr.evalGoal(inv.Expr, scope, pre, fr.entry)
+			sc, old := fr.invCtx(inv, scope)
+			t := fr.evalGoal(inv.Expr, sc, pre, old)
 			vc.obligeNamed(fr, fmt.Sprintf("%s/loop%d/inv-entry/%d", fname, l.ord, i), "inv-entry", t, inv.Tags, inv.Src)
 		}
 	}
@@ -1040,17 +1108,12 @@ func (fr *Frame) execLoopCut(l *Loop, in []*Edge) map[*ssa.BasicBlock][]*Edge {
 			})
 		}
 	}
-	var loopLocs []assignLoc
-	if lc != nil && len(lc.Assigns) > 0 {
-		save := fr.st
-		fr.st = pre
-		loopLocs, _, _ = fr.assignLocs(lc.Assigns, fr.loopScope(l, phis, entryPhi), pre)
-		fr.st = save
+	if len(loopLocs) > 0 {
 		for _, k := range sortedKeys(mod) {
 			if _, ok := frames[k]; ok {
 				continue // already framed exactly by inference
 			}
-			nw, old, wm := head.st.heap[k], vc.arr(pre, leafByKey[k]), pre.wm
+			nw, old, wm := head.st.heap[k], vc.arr(pre, leafByKey[k]), frameWm
 			inside := locsCover(loopLocs, k)
 			vc.addAxiomArr(k, nw, old, fmt.Sprintf("(forall ((a Int)) (! (=> %s (= (select %s a) (select %s a))) :pattern ((select %s a))))",
 				and(lt("a", wm), not(inside("a"))), nw, old, nw), func(idx string) (string, []string) {
@@ -1070,7 +1133,8 @@ func (fr *Frame) execLoopCut(l *Loop, in []*Edge) map[*ssa.BasicBlock][]*Edge {
 			if !clauseActive(inv.Tags, vc.w.prop) {
 				continue
 			}
-			vc.assume(imp(reachIn, fr.evalBool(inv.Expr, scope, head.st, fr.entry)))
+			sc, old := fr.invCtx(inv, scope)
+			vc.assume(imp(reachIn, fr.evalBool(inv.Expr, sc, head.st, old)))
 		}
 		for _, d := range lc.Decreases {
 			variantAtHead = append(variantAtHead, vc.define(fr.prefix+"_variant", "Int", fr.evalInt(d.Expr, scope, head.st, fr.entry)))
@@ -1088,7 +1152,8 @@ func (fr *Frame) execLoopCut(l *Loop, in []*Edge) map[*ssa.BasicBlock][]*Edge {
 			if !clauseActive(inv.Tags, vc.w.prop) {
 				continue
 			}
-			t := fr.evalGoal(inv.Expr, scope, e.st, fr.entry)
+			sc, old := fr.invCtx(inv, scope)
+			t := fr.evalGoal(inv.Expr, sc, e.st, old)
 			vc.obligeNamed(fr, fmt.Sprintf("%s/loop%d/inv-preserved/%d@%d", fname, l.ord, i, li), "inv-preserved", t, inv.Tags, inv.Src)
 		}
 		if len(loopLocs) > 0 {
@@ -1102,7 +1167,7 @@ func (fr *Frame) execLoopCut(l *Loop, in []*Edge) map[*ssa.BasicBlock][]*Edge {
 				now := vc.read(e.st, lf, a)
 				was := vc.read(head.st, lf, a)
 				vc.obligeNamed(fr, fmt.Sprintf("%s/loop%d/frame/%s@%d", fname, l.ord, k, li), "loop-frame",
-					imp(and(le("1", a), lt(a, pre.wm), not(inside(a))), eq(now, was)), nil,
+					imp(and(le("1", a), lt(a, frameWm), not(inside(a))), eq(now, was)), nil,
 					"one iteration changes nothing outside the loop's assigns clause ("+strings.TrimPrefix(k, "H_")+")")
 			}
 		}
@@ -1191,4 +1256,50 @@ func locsCover(locs []assignLoc, k string) func(a string) string {
 		}
 		return or(cs...)
 	}
+}
+
+func (fr *Frame) rootFrame() *Frame {
+	r := fr
+	for r.parent != nil {
+		r = r.parent
+	}
+	if r.isRoot {
+		return r
+	}
+	return nil
+}
+
+// rootAssignLocs evaluates the root function's assigns clauses at its entry.
+func (fr *Frame) rootAssignLocs() ([]assignLoc, bool, []string) {
+	if fr.rootLocsDone {
+		return fr.rootLocs, fr.rootLocsAll, nil
+	}
+	scope := map[string]*Val{}
+	for k, v := range fr.params {
+		scope[k] = v
+	}
+	saveLets := fr.vc.curLets
+	fr.vc.curLets = fr.contract.Lets
+	saveSt, saveReach := fr.st, fr.reach
+	fr.st = fr.entry
+	locs, all, g := fr.assignLocs(fr.contract.Assigns, scope, fr.entry)
+	fr.st, fr.reach = saveSt, saveReach
+	fr.vc.curLets = saveLets
+	fr.rootLocs, fr.rootLocsAll, fr.rootLocsDone = locs, all, true
+	return locs, all, g
+}
+
+// invCtx selects the evaluation context of a loop invariant: the loop's own
+// scope, or (for invariants derived from the root function's assigns clause)
+// the root function's parameters and entry state.
+func (fr *Frame) invCtx(inv Clause, scope map[string]*Val) (map[string]*Val, *State) {
+	if !inv.RootScope {
+		return scope, fr.entry
+	}
+	root := fr.rootFrame()
+	sc := map[string]*Val{}
+	for k, v := range root.params {
+		sc[k] = v
+	}
+	return sc, root.entry
 }
